@@ -8,6 +8,7 @@ From FV Require Import Base.Res Base.Bytes Base.GoSem Model.Headers Model.Receiv
   Proofs.BytesProofs Proofs.HeadersProofs Proofs.ReceiversProofs
   Model.ReceiversFraming Proofs.ReceiversFramingProofs
   Model.ReceiversHttp Proofs.ReceiversHttpProofs.
+From FV Require Import Proofs.DfxReceiversProofs.
 Import ListNotations.
 Open Scope Z_scope.
 
@@ -81,6 +82,30 @@ Proof.
   apply (adapter_read_loop_safe (fun _ => Ok tt) (fun _ => I)); auto.
 Qed.
 Print Assumptions c05_connection_receiver_closes.
+
+(** findings triage (after "fix: adapter transport reports an END_OF_FILE that arrives inside a
+    frame as an unclean close"): the read loop closes the connection cleanly only when the byte
+    stream consists of whole frames (a 4-byte size, that many bytes, repeated) ... *)
+Theorem c05_connection_clean_close_only_between_frames : forall fuel stream,
+  adapter_read_loop fuel stream = ClosedClean -> whole_frames stream.
+Proof. exact adapter_clean_only_between_frames. Qed.
+Print Assumptions c05_connection_clean_close_only_between_frames.
+
+(** ... and a stream cut inside the size prefix, or inside the body of a frame of acceptable
+    size, ends with the END_OF_FILE class error, never cleanly *)
+Theorem c05_connection_cut_inside_frame_is_unclean : forall stream,
+  (0 < zlen stream < 4 \/ (4 <= zlen stream /\ un_be32 (take 4%nat stream) <= max_frame
+                            /\ zlen stream < 4 + un_be32 (take 4%nat stream))) ->
+  adapter_read_loop (S (length stream)) stream = ClosedWith EEOF.
+Proof. exact adapter_cut_is_unclean. Qed.
+Print Assumptions c05_connection_cut_inside_frame_is_unclean.
+
+Example c05_cut_nonvacuous :
+  adapter_read_loop 3 [0; 0] = ClosedWith EEOF
+  /\ adapter_read_loop 8 [0; 0; 0; 9; 0] = ClosedWith EEOF
+  /\ adapter_read_loop 8 [] = ClosedClean
+  /\ whole_frames ([0; 0; 0; 2] ++ [7; 7] ++ []).
+Proof. repeat split; try (vm_compute; reflexivity). constructor; [reflexivity|reflexivity|constructor]. Qed.
 
 (** the inputs that crashed the pinned code (DESIGN.md F1-F3) are plain errors now *)
 Example c05_former_crashers :
